@@ -27,12 +27,23 @@ Oracle (written from the statement):
                    longest hold, no mode is left between two states.
   callbacks        start(callback=) / stop(callback=) / post_queue(start_<m>, callback) complete exactly once when
                    accepted, never when refused.
-  registry         at every quiet instant at which all test modes are stopped, the canonical snapshot of the registries
-                   equals the snapshot taken before the first start (see _c07_helpers.snapshot).
+  registry         at every quiet instant at which all test modes are stopped (1 ms after every `stopped`, before every
+                   operation, at checkpoints, 6 s after the end), the canonical address-free snapshot of the registries
+                   (event handlers, switch handlers incl. armed timed ones, per-mode bookkeeping, every DelayManager,
+                   config-player key/instance/block tables, light stacks, enabled coils, timers, logic-block state,
+                   unfinished queue-event tasks, everything scheduled on the clock) equals the snapshot taken before
+                   the first start (see _c07_helpers.snapshot).
+                   R3: compared from the first instant *after* the last lifecycle event on (clean-up through call_soon,
+                   e.g. done-callbacks of cancelled futures, is given the rest of that instant).
+                   R4: the switch controller's wake-up timer for timed handlers may stay scheduled with nothing to do.
+                   R6: empty containers (instances['show_<n>'] = {}, blocks[x] = []) are not registrations.
   fired_inactive   a handler/delay/switch handler registered by the custom mode code runs while the mode is not active
                    (relaxation R5: not judged in the very instant in which mode_<m>_stopped is posted - the stop completes
                    when that event has been dispatched).
   mpf_crash        an exception reaches the loop's exception handler.
+
+Depends on proposed fixes C07-1 .. C07-7 and on C02-queue-task-loses-callback / C02-mode-start-forwards-queue (the latter is
+also recorded as known finding C07-F-C02-wait-queue-start-hangs); without them the check reports genuine violations.
 """
 import re
 from functools import partial
@@ -248,9 +259,12 @@ def _mark(fn):
 
 
 def _is_harness(cb):
-    while isinstance(cb, partial):
+    while True:
+        if getattr(cb, "_c07", False):
+            return True
+        if not isinstance(cb, partial):
+            return False
         cb = cb.func
-    return bool(getattr(cb, "_c07", False))
 
 
 def execute(ctx, plan):
@@ -273,6 +287,7 @@ def execute(ctx, plan):
     in_request = [0]
     last_life = [0.0]
     stopped_at = {n: [] for n in TEST_MODES}
+    after_stop_check = []
 
     def now():
         return loop.time()
@@ -320,6 +335,9 @@ def execute(ctx, plan):
         if phase == "stopped":
             s["cycles"] += 1
             stopped_at[n].append(now())
+            # "after every completed stop": look at the registries at the first later instant (see R3)
+            if after_stop_check:
+                sim.at(now() + 0.001, after_stop_check[0])
         if phase == "will_stop" and n == "dev" and not in_request[0]:
             ctx.probe("stop_by_own_device")
 
@@ -581,6 +599,11 @@ def execute(ctx, plan):
                 ctx.violation("registry", norm_sig(line),
                               "registries differ from the snapshot before the first start (%s, t=%.6f, completed cycles %r):\n  %s"
                               % (where, now(), cyc, "\n  ".join(d[:12])))
+
+    def _after_stop_check():
+        if not abort[0] and all_stopped_quiet():
+            compare_registry("1 ms after a stop")
+    after_stop_check.append(_mark(_after_stop_check))
 
     # -- ops -----------------------------------------------------------------------------------------------------------------
     def do_op(op, origin="op"):
